@@ -191,6 +191,18 @@ Section Primitives.
     Notation ph := (peer_handle dh pub pk_valid hkdf2 H seal open decode init_ok handler_ok
                                 our_node_secret our_ephemeral).
 
+    (** THE GATE, for every message kind the code path distinguishes (Init, start_batch,
+        commitment_signed inside or outside a batch, gossip_timestamp_filter, anything else) and
+        every decode outcome: while the peer's Init has not been accepted no message reaches a
+        handler, no batch is opened, and whatever decodes to a non-Init message disconnects *)
+    Theorem C15_gate_closed_before_init : forall g m,
+      g_init g = false ->
+      let '(evs, r) := gate_msg decode init_ok handler_ok g m in
+      ~ In EvDeliver evs /\
+      (forall g', r = Some g' -> g_batch g' = g_batch g) /\
+      (forall k, decode m = DOk k -> k <> KInit -> r = None).
+    Proof. exact (gate_closed_before_init decode init_ok handler_ok). Qed.
+
     (** inbound connection, any sequence of [read_event] calls with any bytes: the reader ends
         alive or disconnected (no assertion failure, no wrong-step panic, loop terminates), and any
         handler delivery is preceded by their accepted Init, itself preceded by the end of the
